@@ -33,6 +33,7 @@ void vterm_automate_newdata(struct vterm_automate *vterm, int16_t input_c)
     char c = 0;
     int ret;
     int return_flag = 0;
+    unsigned int prev_cursor = 0;
 
     while (return_flag == 0)
     {
@@ -78,6 +79,9 @@ void vterm_automate_newdata(struct vterm_automate *vterm, int16_t input_c)
                 break;
             }
 
+            // Положение курсора до обработки символа: от него отсчитывается
+            // возврат к началу строки при замене строки из истории.
+            prev_cursor = vterm->rl.line.cursor;
             ret = readline_putchar(&vterm->rl, c);
 
             switch (ret)
@@ -161,18 +165,19 @@ void vterm_automate_newdata(struct vterm_automate *vterm, int16_t input_c)
             {
                 char buf[16];
 
-                if (vterm->rl.lastsize)
+                if (vterm->echo)
                 {
-                    if (vterm->echo)
+                    if (prev_cursor)
                     {
-                        ret = vt100_left(buf, vterm->rl.lastsize);
+                        ret = vt100_left(buf, prev_cursor);
 
                         vterm->write_callback(vterm->write_privdata, buf, ret);
+                    }
 
+                    if (vterm->rl.lastsize)
                         vterm->write_callback(vterm->write_privdata,
                                               VT100_ERASE_LINE_AFTER_CURSOR,
                                               3);
-                    }
                 }
 
                 if (vterm->rl.line.len)
